@@ -317,11 +317,38 @@ def main():
         except Exception as ex:
             out["progs"].append({"n": n, "uses": [], "grad": [], "ok": False, "error": repr(ex), "order": "+".join(kinds)})
         dist("program:full-selection-mix")
+    # 0-d values (real and complex) used densely two or more times and through x[()] / x[...] / x[None], in every order
+    import itertools as _it0
+    out.setdefault("nested", {"n": 0, "bad": []})
+    for zc in (onp.array(1.5), onp.array(1.5 - 0.5j), 2.0 + 1.0j):
+        uses0 = [("dense", lambda z: z * (2.0 + (1j if onp.iscomplexobj(zc) else 0.0))), ("dense", lambda z: z * 3.0), ("index ()", lambda z: z[()] * 5.0),
+                 ("index ...", lambda z: z[...] * 7.0), ("index None", lambda z: z[None][0] * 11.0)] if not isinstance(zc, complex) else \
+                [("dense", lambda z: z * (2.0 + 1j)), ("dense", lambda z: z * 3.0), ("dense", lambda z: z * 1j)]
+        for perm in list(_it0.permutations(range(len(uses0))))[:: max(1, len(uses0) * 4)]:
+            out["nested"]["n"] += 1
+            dist("program:zero-d-mix")
+
+            def f0(z, perm=perm):
+                tot = 0.0
+                for i_ in perm:
+                    tot = tot + uses0[i_][1](z)
+                return anp.real(tot * (1.0 - 2.0j)) if onp.iscomplexobj(zc) else tot
+            try:
+                g0 = grad(f0)(zc)
+                coef = sum({0: (2.0 + (1j if onp.iscomplexobj(zc) else 0.0)), 1: 3.0, 2: (5.0 if not isinstance(zc, complex) else 1j), 3: 7.0, 4: 11.0}[i_] for i_ in perm)
+                want = (coef * (1.0 - 2.0j)) if onp.iscomplexobj(zc) else coef
+                want = onp.conj(want) if False else want
+                ok = onp.shape(g0) == () and abs(complex(g0) - complex(want)) < 1e-12
+                if not ok:
+                    out["nested"]["bad"].append({"program": "0-d value %r, uses in order %s" % (zc, [uses0[i_][0] for i_ in perm]),
+                                                 "problems": ["gradient %r, expected %r" % (g0, want)], "ok": False})
+            except Exception as ex:
+                out["nested"]["bad"].append({"program": "0-d value %r, uses in order %s" % (zc, [uses0[i_][0] for i_ in perm]), "problems": ["raised %r" % (ex,)], "ok": False})
     # programs of a third kind: the same mixtures inside a NESTED differentiation, with cotangents that depend on the
     # outer variable (every term is squared) and values that share one cotangent object (s = y + w): the gradient seen
     # under an outer trace, and the second derivative, against forward mode (which accumulates nothing)
     from autograd import make_jvp as _mj
-    out["nested"] = {"n": 0, "bad": []}
+    out.setdefault("nested", {"n": 0, "bad": []})
     for it in range(cfg["n_progs"]):
         n = rng.choice([3, 4])
         lab = onp.arange(n)
